@@ -39,7 +39,10 @@ TRUSTED = ['Coq 8.16.1 kernel (coqc; coqchk in the thorough tier); Print Assumpt
            'harness/route: net.rs (fake Redis nodes answering GET nil / EXISTS 0 / DUMP nil / PTTL -2 / SCAN, fake control network that hands '
            'UMCTL commands to the target proxy\'s real handler and can hold or drop PRECHECK / PRESWITCH / FINALSWITCH), store.rs (broker ops, '
            'IP-literal address scheme), dom.rs (probing, quiescence detection for parked commands, monitor)',
-           'a probe is counted as parked (Q) when it has no reply and nothing reached any fake Redis node for 600 ms',
+           'a probe is reported as parked (Q) only on positive evidence: the scheduling hook of proxy/blocking.rs (common::verif_sched, label '
+           '"enqueue" / "redispatch") counts the commands put into / taken out of a blocking queue, and probing of a proxy ends when answered + '
+           'parked = 16384; the barrier flag of PRE_BLOCKING / SCANNING is established by a sentinel command and the same counters; no '
+           'classification depends on a wall-clock wait (a machine so starved that nothing moves for 180 s yields a harness error, never a Q)',
            'phases of the real tasks are read back through UMCTL INFO; the barrier flag is derived from them (PRE_BLOCKING / PRE_SWITCH => raised), '
            'max_blocking_time is set to 600 s in the cluster config so that the barrier cannot time out during a case',
            'one probe key per slot: "{k<i>}:<proxy>" with generate_slot("k<i>") = slot (key -> slot hashing itself is C09)']
@@ -84,6 +87,20 @@ def uneven():
     return out
 
 
+RESYNC = ' ; sync ; balance 1'     # the coordinator's next round: same running tasks, higher epoch
+
+
+def resync_states():
+    """metadata applied twice while the same migrations are running (MigrationMap::update_from_old_task_map with reused tasks only)"""
+    b = base(12) + ' ; addcluster 1 4 1 ? ; addnodes 1 8 ? ; migrate 1'
+    return [
+        ('resync-epoch-bump', b + RESYNC),
+        ('resync-after-one-commit', b + ' ; sync ; commitnth 1 0 0'),
+        ('resync-after-failover', b + ' ; sync ; replace 1 0 ? ; replace 2 0 ? ; replace 3 0 ?'),
+        ('resync-twice', b + ' ; sync ; commitnth 1 1 0 ; balance 1'),
+    ]
+
+
 def gen_history(rng):
     n = rng.choice([8, 10, 12, 14, 16, 20, 24])
     hosts = rng.choice([2, 3, 4])
@@ -115,6 +132,9 @@ def gen_history(rng):
         ops.append(rng.choice(['scaledown 1 4', 'scaledown 1 8', 'addnodes 1 4 ? ; migrate 1', 'addnodes 1 8 ? ; migrate 1']))
     if rng.random() < 0.15:
         failovers(1)
+    if rng.random() < 0.35:
+        ops.append('sync')
+        ops.append(rng.choice(['balance 1', 'commitnth 1 0 0', 'replace %d 0 ?' % rng.randint(1, n), 'commitnth 1 1 1 ; balance 1']))
     return ' ; '.join(ops)
 
 
@@ -125,7 +145,10 @@ def gen_cases(chk):
         # first state: all eight pairs in both encodings; the others: a rotating subset; limited views on two of them
         for pin in PINS:
             cases.append(('plain', 0, pin, cor[0]))
-            cases.append(('comp', 0, pin, cor[0]))
+            cases.append(('comp', 0, pin, (cor[0][0] + '-resync', cor[0][1] + RESYNC)))
+        rs = resync_states()
+        for j, pin in enumerate(['scan', 'fsh', 'sc', 'pc', 'psd']):
+            cases.append(('plain' if j % 2 else 'comp', 0, pin, rs[j % len(rs)]))
         for i, st in enumerate(cor[1:4]):
             for j, pin in enumerate(['pc', 'psd', 'scan', 'sc', 'pb', 'fsd']):
                 enc = 'plain' if (i + j) % 2 == 0 else 'comp'
@@ -147,7 +170,7 @@ def gen_cases(chk):
             for pin in chk.rng.sample(PINS, 2):
                 cases.append((chk.rng.choice(['plain', 'comp']), chk.rng.choice([0, 0, 1]), pin, h))
     else:
-        for st in cor + uneven():
+        for st in cor + uneven() + resync_states():
             for pin in (PINS if not st[0].endswith('-committed') else ['sc', 'pc']):
                 for enc in ('plain', 'comp'):
                     cases.append((enc, 0, pin, st))
@@ -196,18 +219,20 @@ def case_ok(p, m):
 
 
 def run_pipeline(chk, lines, jobs, retried=None):
-    """every case through the real proxies, then through the model.  Whether a probe is parked in a blocking queue is decided by a
-    quiescence time-out inside the harness (1.5 s without any reply and without any command reaching a fake Redis node), which a
-    starved machine can defeat; therefore a case that fails is re-run ONCE, alone, with a 5 s threshold, and only the second result counts."""
+    """every case through the real proxies, then through the model.  Only a case in which the HARNESS itself got stuck (no result line, a
+    probe neither answered nor counted into a blocking queue for 180 s, phases that could not be pinned) is re-run once, alone; every
+    other failure is reported as it is."""
     rc, impl = chk.run_impl('route', lines, jobs=jobs, timeout=3000)
     parsed = []
     for i, l in enumerate(lines):
         o = impl[i] if i < len(impl) else ''
         parsed.append((split_impl(o), o))
     mout = run_model_on(chk, model_lines(lines, parsed), jobs)
-    bad = [i for i in range(len(lines)) if not case_ok(parsed[i][0], mout[i])]
+    def harness_trouble(p):
+        return (not p) or 'harness_probe' in p['MON'] or ' note=' in p['MON']
+    bad = [i for i in range(len(lines)) if harness_trouble(parsed[i][0])]
     for i in bad[:12]:
-        rc, o = vlib.sh([vlib.UMH('route')], inp=lines[i] + '\n', timeout=600, env=dict(vlib.ENV, UM_ROUTE_IDLE_MS='5000'))
+        rc, o = vlib.sh([vlib.UMH('route')], inp=lines[i] + '\n', timeout=600, env=dict(vlib.ENV))
         o = o.strip().split('\n')[-1] if o.strip() else ''
         p2 = (split_impl(o), o)
         m2 = run_model_on(chk, model_lines([lines[i]], [p2]), 1)[0]
